@@ -1,6 +1,6 @@
 (* Props/C12.v -- property C12: UAS INVITE: one final response under any CANCEL/BYE/accept race; 2xx until ACK *)
 From Coq Require Import List NArith Bool.
-From EZK Require Import Gen.Tables Model.C04 Proofs.C04 Model.Tsx Model.C12 Proofs.C12.
+From EZK Require Import Gen.Tables Model.C04 Proofs.C04 Model.C12o Proofs.C12o Model.Tsx Model.C12 Proofs.C12.
 Import ListNotations.
 Open Scope N_scope.
 
@@ -83,3 +83,15 @@ Theorem C12_raw_branch_lookup_refuted : forall inv,
   has_cookie (m_branch inv) = false -> m_branch inv <> [] -> m_from_tag inv <> None ->
   cancellable_reg inv <> Some (m_cseq inv, m_branch inv).
 Proof. exact raw_branch_lookup_misses. Qed.
+
+(* "retransmitted ... until an ACK with the INVITE's CSeq arrives": the rendezvous for that ACK is registered before the 2xx is handed
+   to the transport, so an ACK that the endpoint processes while the send has not returned yet is the awaited one; registered
+   afterwards, it would be dropped and the 2xx sent again *)
+Theorem C12_ack_rendezvous_guard : ack_rendezvous_before_send = true.
+Proof. reflexivity. Qed.
+
+Theorem C12_ack_during_send_matched : ack_rendezvous_before_send = true -> ack_matched false accept_steps = true.
+Proof. exact ack_during_send_matched. Qed.
+
+Theorem C12_late_rendezvous_refuted : ack_matched false [AckArrives; SendReturns; RegisterRendezvous] = false.
+Proof. exact ack_late_registration_dropped. Qed.
